@@ -167,10 +167,18 @@ structure DSt where
   a : St
   k : TM.Guard.Consts
 
+/-- `recv` / `ack` lines may end with `pf=<hex>`: the bytes the message carries in `ProofCommitment` /
+`ProofAcked` when the gating client is a TSS client (for proof-verifying clients the harness derives the proof
+from `proofOK`). The model has no use for them: for a TSS client `packet.go` replaces the proof by
+`[]byte(msg.Signer)` UNCONDITIONALLY (`TM.Auth.verify (.tss a) s _ = (s.raw == a)`), so whatever the message
+carries — nothing, garbage, the TSS address itself, somebody's address — cannot influence the verdict. -/
+def stripProofField (line : String) : String :=
+  joinWith " " ((fields line).filter (fun f => !f.startsWith "pf="))
+
 def step (d : DSt) (line : String) : DSt × String :=
   match stepGuard d.k (fields line) with
   | some (k', out) => ({ d with k := k' }, out)
-  | none => let (a', out) := stepMsg d.a line; ({ d with a := a' }, out)
+  | none => let (a', out) := stepMsg d.a (stripProofField line); ({ d with a := a' }, out)
 
 def main : IO Unit := TM.Driver.runStdin step ⟨fresh, emptyConsts⟩
 
